@@ -179,9 +179,11 @@ def jobs(tier):
                 J.append({"module": "c16", "fn": "h_groupby", "part": {"N": 4, "n": n, "L": 5, "G": 2, "key": key, "fl": "agen"}, "timeout": T})
             J.append({"module": "c16", "fn": "h_groupby", "part": {"N": 3, "n": 3, "L": 3, "G": 2, "key": key, "fl": "acls", "pool": True}, "timeout": T})
         else:
-            for n in range(0, 6):
+            for n in (4, 5):
                 for o1 in range(0, 4):
-                    J.append({"module": "c16", "fn": "h_groupby", "part": {"N": 5, "n": n, "L": 7, "G": 3, "o0": 0, "o1": o1, "key": key, "fl": ("acls" if n % 2 else "agen")}, "timeout": T})
+                    J.append({"module": "c16", "fn": "h_groupby", "part": {"N": 5, "n": n, "L": 6, "G": 3, "o0": 0, "o1": o1, "key": key, "fl": ("acls" if n % 2 else "agen")}, "timeout": T})
+            for n in range(0, 4):
+                J.append({"module": "c16", "fn": "h_groupby", "part": {"N": 5, "n": n, "L": 5, "G": 3, "key": key, "fl": ("acls" if n % 2 else "agen")}, "timeout": T})
     # items that compare equal while their keys differ; the groupby object dropped while group handles live on
     for key in ("def", "adef"):
         J.append({"module": "c16", "fn": "h_groupby", "part": {"N": 3, "n": 3, "L": 4, "G": 2, "key": key, "fl": "agen", "eqitems": True}, "timeout": T})
@@ -196,7 +198,7 @@ def jobs(tier):
 LEVEL = "other"
 BOUNDS = {
     "quick": "(plus sequences of 3 plain values from {None, 0, 1}) item sequences of length 0..4 with unbounded integer keys (only equality matters: every partition into runs is a path), key absent / def / async def (and, for 3 items, callable object, partial(async def), def returning a ready awaitable), every operation sequence of length 5 over {advance groupby, advance group handle 1, advance group handle 2}; for 3 items also items that all compare equal while their keys differ, and sequences of length 4 that may drop the groupby object while group handles live on",
-    "thorough": "length 0..5, operation sequences of length 7 starting with an advance, over {advance groupby, advance group handle 1..3}",
+    "thorough": "length 4..5 with operation sequences of length 6 starting with an advance, length 0..3 with every sequence of length 5, over {advance groupby, advance group handle 1..3}",
 }
 OUTSIDE = ["sequences longer than the bound, more group handles than G", "keys whose equality is not reflexive", "closing group handles (C04)"]
 NONTRIVIAL_RULE = "(for non-empty input) >=1 group obtained and >=1 group item served on the path"
